@@ -31,7 +31,7 @@ type Config struct {
 }
 
 func DefaultConfig() Config {
-	return Config{Unwind: 64, MaxDepth: 200, MaxSteps: 3_000_000, SolverTimeoutMs: 60000, Solver: "z3"}
+	return Config{Unwind: 64, MaxDepth: 200, MaxSteps: 3_000_000, SolverTimeoutMs: 60000, Solver: "z3-new"}
 }
 
 // Program is the SSA form of /repo (plus overlay harness files) shared by all workers.
@@ -190,8 +190,16 @@ func NewWorker(P *Program, cfg Config) (*Worker, error) {
 
 func (w *Worker) Close() { w.S.Close() }
 
+var dumpDir = os.Getenv("VSYM_DUMP_DIR")
+var dumpN int
+
 func (w *Worker) check(assumps []*smt.Term) (smt.Result, smt.Model) {
+	t0 := time.Now()
 	r, m := w.S.Check(assumps)
+	if dumpDir != "" {
+		dumpN++
+		os.WriteFile(fmt.Sprintf("%s/q%05d_%s_%dms.smt2", dumpDir, dumpN, r, time.Since(t0).Milliseconds()), []byte(w.F.Dump(assumps)), 0o644)
+	}
 	return r, m
 }
 
@@ -209,7 +217,39 @@ var interpretablePrefixes = []string{
 	"golang.org/x/net/html",
 }
 
+// std functions that are pure, small and independent of package state are
+// interpreted from their SSA like repository code.
+var interpretableStd = map[string]bool{
+	"(*io/fs.PathError).Error":   true,
+	"(*io/fs.PathError).Unwrap":  true,
+	"(*io/fs.PathError).Timeout": true,
+	"(io/fs.FileMode).IsDir":     true,
+	"(io/fs.FileMode).IsRegular": true,
+	"(io/fs.FileMode).Type":      true,
+	"(io/fs.FileMode).Perm":      true,
+	"(time.Time).IsZero":         true,
+	"(time.Time).Equal":          true,
+	"(time.Time).After":          true,
+	"(time.Time).Before":         true,
+	"(time.Time).Compare":        true,
+	"(time.Time).Unix":           true,
+	"(*time.Time).sec":           true,
+	"(*time.Time).nsec":          true,
+	"(*time.Time).unixSec":       true,
+	"(*time.Time).setLoc":        true,
+	"(*time.Time).stripMono":     true,
+	"time.Unix":                  true,
+	"time.unixTime":              true,
+	"(time.Time).Sub":            true,
+	"(time.Time).Add":            true,
+	"time.subMono":               true,
+	"(time.Duration).Seconds":    false,
+}
+
 func (w *Worker) interpretable(fn *ssa.Function) bool {
+	if interpretableStd[fn.String()] {
+		return true
+	}
 	pkg := fn.Pkg
 	if pkg == nil {
 		if o := fn.Origin(); o != nil {
